@@ -296,6 +296,13 @@ func (p *Packer) packWalkFn(root, src, dst string, tarW *tar.Writer, meta *Meta,
 				return filepath.Walk(resolved.absTarget, p.packWalkFn(root, resolved.absTarget, linkDst, tarW, meta, ignoreRules))
 			}
 
+			// Like other special files, a target that is neither a directory nor
+			// a regular file (a fifo, socket or device) is skipped: it has no
+			// content to copy, and opening a fifo would block.
+			if !resolved.info.Mode().IsRegular() {
+				return nil
+			}
+
 			// Dereference this symlink by updating the header with the target file
 			// details and set writeBody to true so the body will be written.
 			header.Typeflag = tar.TypeReg
